@@ -84,7 +84,9 @@ def todense(x):
 
 def reference(i, bs, ctx, mode):
     """line i recognised alone by a fresh engine with the same pixel budget"""
-    key = (i, bs if CROPS[i][0] + 32 > 480 else 0, ctx, mode)
+    # the budget (480 px x batch size) matters as soon as the PADDED tensor of the line (width rounded up to a multiple of 32, plus 32 px on
+    # either side) can exceed it; below that the result cannot depend on the batch size and is shared
+    key = (i, bs if CROPS[i][0] + 31 + 64 > 480 else 0, ctx, mode)
     if key not in _REF:
         eng = make_engine(bs, ctx)
         t, lg, co = run(eng, [crop(i)], mode)
